@@ -19,12 +19,15 @@ class Agreement(PipelineBase):
     name='C07.threshold_agreement'
     def __init__(self,nlinks=2,small=False,plain=False,**kw):
         PipelineBase.__init__(self,**kw); self.nlinks=nlinks; self.small=small; self.plain=plain
-        if plain: self.name='C07.threshold_agreement_%dlinks_plain'%nlinks
+        if plain:
+            self.name='C07.threshold_agreement_%dlinks_plain'%nlinks
+            self.hash_order='rot'        # every rotation and the reversal of every map (each entry first and last in some order); all 3! x 3! x .. permutations exhaust the path budget
         if small:
             self.name='C07.threshold_agreement_%dlinks_small'%nlinks
             self.hash_order='fixed'      # insertion order only here (order dependence is C13's subject; 3-4 entry maps under every permutation cost 10^5 paths)
         self.bounds={'links':nlinks,'threshold':'any u32','materials':'per link any subset of {a,b}, one free digest byte per entry; the second link may record a as ./a; b recorded under sha256 by the first link and under sha256, sha512 or both by the others','products':'per link {} or {a} (a is also a material path), free digest byte',
                      'signature_validity':'link 0 valid; other links free (intact/over/made_by)','hash_map_iteration':'every permutation'}
+        if self.hash_order!='all': self.bounds['hash_map_iteration']={'fixed':'insertion order','rot':'every rotation and the reversal of every map'}[self.hash_order]
         self.witnesses=['ok_thr2_agree','err_disagree','ok_thr1_disagree']
     def mk_args(self,run):
         n=self.nlinks; OWN=n
